@@ -152,4 +152,56 @@ def TState.pendingIn (s : TState) (q id : Nat) : Prop := ∃ e ∈ (s.q q).entri
 /-- `id` waits in some queue or has been dispatched -/
 def TState.stored (s : TState) (id : Nat) : Prop := (∃ q, s.pendingIn q id) ∨ id ∈ s.dispatchedIds
 
+/-! ### concrete schedules used as non-vacuity examples in `Props/C19.lean` -/
+
+/-- Threads 1 and 2 submit signals 10 and 11 (source 7, owned by level 0) while the loop thread (0) opens a
+nested level (queue 1) in between, submits its seed 99 (no source: fallback path, lands in the new active queue
+1), dispatches it, closes the level and dispatches 10 then 11. -/
+def demoSchedule : List (Nat × Ev) :=
+  [ (1, .submit ⟨10, some 7, 0⟩), (1, .acqMain), (1, .lvIter [0]), (1, .acqQ 0), (1, .contains 0 (some 7) true),
+    (1, .relQ 0),
+    (0, .newLoop ⟨99, none, 0⟩), (0, .activeWrite 1),
+    (1, .acqO 0), (1, .put 0 10 0 0), (1, .relO 0), (1, .relMain),
+    (2, .submit ⟨11, some 7, 0⟩),
+    (0, .acqMain), (0, .activeRead 1), (0, .lvAppend 1), (0, .relMain),
+    (2, .acqMain), (2, .lvIter [0, 1]), (2, .acqQ 1), (2, .contains 1 (some 7) false), (2, .relQ 1),
+    (2, .acqQ 0), (2, .contains 0 (some 7) true), (2, .relQ 0), (2, .acqO 0), (2, .put 0 11 0 1), (2, .relO 0),
+    (2, .relMain),
+    (0, .acqMain), (0, .lvIter [0, 1]), (0, .acqQ 1), (0, .contains 1 none false), (0, .relQ 1),
+    (0, .acqQ 0), (0, .contains 0 none false), (0, .relQ 0), (0, .relMain),
+    (0, .activeRead 1), (0, .acqO 1), (0, .put 1 99 0 0), (0, .relO 1),
+    (0, .activeRead 1), (0, .get 1 99),
+    (0, .acqMain), (0, .lvPop 1), (0, .lvTop 0), (0, .activeWrite 0), (0, .relMain),
+    (0, .get 0 10), (0, .get 0 11) ]
+
+/-- thread 1 submits signal 20 without a source while the nested level 1 is open and reads `_active_queue` = 1;
+the loop thread closes level 1; then thread 1 puts -/
+def closedLevelSchedule : List (Nat × Ev) :=
+  [ (0, .newLoop ⟨99, none, 0⟩), (0, .activeWrite 1), (0, .acqMain), (0, .lvAppend 1), (0, .relMain),
+    (0, .acqMain), (0, .lvIter [0, 1]), (0, .acqQ 1), (0, .contains 1 none false), (0, .relQ 1),
+    (0, .acqQ 0), (0, .contains 0 none false), (0, .relQ 0), (0, .relMain),
+    (0, .activeRead 1), (0, .acqO 1), (0, .put 1 99 0 0), (0, .relO 1),
+    (1, .submit ⟨20, none, 0⟩), (1, .acqMain), (1, .lvIter [0, 1]), (1, .acqQ 1), (1, .contains 1 none false),
+    (1, .relQ 1), (1, .acqQ 0), (1, .contains 0 none false), (1, .relQ 0), (1, .relMain), (1, .activeRead 1),
+    (0, .acqMain), (0, .lvPop 1), (0, .lvTop 0), (0, .activeWrite 0), (0, .relMain),
+    (1, .acqO 1), (1, .put 1 20 0 1), (1, .relO 1) ]
+
+/-- thread 1 submits 10 then 11 (no source: both land in queue 0 by the fallback path), the loop thread
+dispatches both -/
+def fifoSchedule : List (Nat × Ev) :=
+  [ (1, .submit ⟨10, none, 0⟩), (1, .acqMain), (1, .lvIter [0]), (1, .acqQ 0), (1, .contains 0 none false),
+    (1, .relQ 0), (1, .relMain), (1, .activeRead 0), (1, .acqO 0), (1, .put 0 10 0 0), (1, .relO 0),
+    (1, .submit ⟨11, none, 0⟩), (1, .acqMain), (1, .lvIter [0]), (1, .acqQ 0), (1, .contains 0 none false),
+    (1, .relQ 0), (1, .relMain), (1, .activeRead 0), (1, .acqO 0), (1, .put 0 11 0 1), (1, .relO 0),
+    (0, .get 0 10), (0, .get 0 11) ]
+
+/-- thread 1 submits the *same* id 5 twice (both land in queue 0 by the fallback path), the loop thread
+dispatches one of them -/
+def dupSchedule : List (Nat × Ev) :=
+  [ (1, .submit ⟨5, none, 0⟩), (1, .acqMain), (1, .lvIter [0]), (1, .acqQ 0), (1, .contains 0 none false),
+    (1, .relQ 0), (1, .relMain), (1, .activeRead 0), (1, .acqO 0), (1, .put 0 5 0 0), (1, .relO 0),
+    (1, .submit ⟨5, none, 0⟩), (1, .acqMain), (1, .lvIter [0]), (1, .acqQ 0), (1, .contains 0 none false),
+    (1, .relQ 0), (1, .relMain), (1, .activeRead 0), (1, .acqO 0), (1, .put 0 5 0 1), (1, .relO 0),
+    (0, .get 0 5) ]
+
 end Simpleline.Threads
